@@ -347,6 +347,9 @@ func TestReplay(t *testing.T) {
 	if p == "" {
 		t.Skip("VERIF_REPLAY not set")
 	}
+	if replayFuzz(t, p) {
+		return
+	}
 	var c Case
 	if err := vstat.LoadReplay(p, &c); err != nil {
 		t.Fatal(err)
